@@ -6,7 +6,7 @@ from .. import catalogue as K
 from .. import tys as T
 from .. import speccheck as S
 
-THEOREMS = []
+THEOREMS = ["c11_from_container", "c11_try_from_container", "c11_validate"]
 
 
 def uses_functions(it):
